@@ -1378,7 +1378,8 @@ def check_for_errors(result):
 
     if "error" in result and result["error"]:
         # Server-side error
-        if "code" in result["error"]:
+        is_dict = isinstance(result["error"], utils.DictType)
+        if is_dict and "code" in result["error"]:
             # Code + Message
             code = result["error"]["code"]
             try:
@@ -1388,7 +1389,13 @@ def check_for_errors(result):
                 # Get the trace (jabsorb)
                 message = result["error"].get("trace", "<no error message>")
 
-            if -32700 <= code <= -32000:
+            try:
+                predefined = -32700 <= code <= -32000
+            except TypeError:
+                # Not a numeric code
+                predefined = False
+
+            if predefined:
                 # Pre-defined errors
                 # See http://www.jsonrpc.org/specification#error_object
                 raise ProtocolError((code, message))
@@ -1397,9 +1404,9 @@ def check_for_errors(result):
                 data = result["error"].get("data", None)
                 raise AppError((code, message, data))
 
-        elif isinstance(result["error"], dict) and len(result["error"]) == 1:
+        elif is_dict and len(result["error"]) == 1:
             # Error with a single entry ('reason', ...): use its content
-            error_key = result["error"].keys()[0]
+            error_key = next(iter(result["error"]))
             raise ProtocolError(result["error"][error_key])
 
         else:
